@@ -436,7 +436,7 @@ func VerifC24Deep() {
 }
 
 // VerifC24Merge: mergeQueued alone over a slice of up to 4 queued writes with symbolic sequence
-// numbers and objects.
+// numbers (objects are distinct constants: the function is generic and cannot look at them).
 func VerifC24Merge() {
 	verifPanicsAreViolations()
 	n := verifChoice("n", 5)
@@ -450,7 +450,7 @@ func VerifC24Merge() {
 			k = verifChoice(verifName("len", i), 3)
 		}
 		for j := 0; j < k; j++ {
-			q.Objects = append(q.Objects, int(verifI64(verifName("obj", i*4+j))))
+			q.Objects = append(q.Objects, 10*i+j+1)
 		}
 		if verifChoice(verifName("chan", i), 2) == 1 {
 			q.flushChan = make(FlushChannel)
